@@ -308,6 +308,8 @@ def shards(tier, seed):
     out = []
     for i in range(6 if q else 24):
         out.append(("systematic_%d" % i, dict(kind="systematic", scenarios=3 if q else 12, limit=120 if q else 1500, instr=not q)))
+    for i in range(4 if q else 12):
+        out.append(("systematic_keys_%d" % i, dict(kind="systematic_keys", scenarios=2 if q else 8, limit2=60 if q else 1500, instr=not q)))
     for i in range(4 if q else 16):
         out.append(("random_%d" % i, dict(kind="random", scenarios=10 if q else 60, per=12 if q else 60, instr=(i % 2 == 1))))
     for i in range(2 if q else 8):
@@ -327,7 +329,6 @@ def toy_pick(rng):
 
 def run(ctx, name, kind, **kw):
     rng = ctx.rng
-    sys.setrecursionlimit(10000)
     seen = set()
     if kind == "free":
         return free_running(ctx, rng, kw["rounds"])
@@ -347,6 +348,31 @@ def run(ctx, name, kind, **kw):
                     one_run(ctx, sc, dec, hooks, "schedule.systematic", seen)
                     return dec.state["i"]
                 for _d in S.enumerate_delays(run_once, 2, kw["limit"], rng):
+                    if ctx.expired():
+                        break
+        elif kind == "systematic_keys":
+            # shared verifying / signing key: (precompute | precompute_lazy) against each key operation.  EVERY single-delay
+            # placement is run (the window inside precompute() is one or two yield points wide), then sampled pairs of delays.
+            for _ in range(kw["scenarios"]):
+                curve, dom = toy_pick(rng)
+                sc = Scenario(rng, curve, dom, 2)
+                a0, a1 = sc.plans[0][0][1], sc.plans[1][0][1]
+                sc.plans[0] = [(rng.choice(("precompute", "precompute_lazy")), a0, 0)]
+                sc.plans[1] = [(rng.choice(("verify", "verify", "to_string", "sign", "precompute_lazy", "verify")), a1, 0)]
+                if rng.random() < 0.5:
+                    sc.plans[1].append((rng.choice(("verify", "to_string")), a1, 0))
+
+                def run_once(delays):
+                    dec = S.delay_decider(delays)
+                    one_run(ctx, sc, dec, hooks, "schedule.systematic", seen)
+                    return dec.state["i"]
+                n1 = 0
+                for _d in S.enumerate_delays(run_once, 1, None, None):
+                    n1 += 1
+                    if ctx.expired():
+                        break
+                ctx.count("systematic_keys_single_delay_runs", n1)
+                for _d in S.enumerate_delays(run_once, 2, kw["limit2"], rng):
                     if ctx.expired():
                         break
         elif kind in ("random", "pct"):
